@@ -45,11 +45,16 @@ theorem arraySplit_coord (a : Arr α) (zero : α) (parts k : Nat) (hwf : a.WF) (
   rw [hpl, set_mid, getD_mid]
   exact g3 p q j hp' hq hj
 
-theorem arraySplit_none (a : Arr α) (zero : α) (parts : Nat) (h : 1 ≤ a.ndim) :
+/-- the default axis is axis 0 — for every rank (a rank-0 receiver is refused either way: the DEFAULTED axis is validated) -/
+theorem arraySplit_none (a : Arr α) (zero : α) (parts : Nat) :
     a.arraySplit zero parts none = a.arraySplit zero parts (some 0) := by
   unfold Arr.arraySplit
-  have : ¬ (0 ≥ a.ndim) := by omega
-  simp [this]
+  simp only [Option.getD_none, Option.getD_some]
+
+theorem split_none (a : Arr α) (zero : α) (parts : Nat) :
+    a.split zero parts none = a.split zero parts (some 0) := by
+  unfold Arr.split
+  simp only [Option.getD_none, Option.getD_some, arraySplit_none]
 
 /-! ### `concatenate` in whole coordinates -/
 
